@@ -1,2 +1,197 @@
-(** C19 -- property theorems (being filled in) *)
-From P Require Import Lib Transfer Generators.
+(** C19 -- property theorems only.  Each is closed by [exact] of a lemma proved in the other files of
+    this directory and followed by Print Assumptions.
+
+    Model: Transfer.v (mulgrid.column_mapping / layer_mapping / block_mapping, t2incon.transfer_from),
+    Generators.v (t2data.transfer_generators_from).  [block_mapping self geo] is Python's
+    [self.block_mapping(geo, True)]: [self] is the SOURCE, [geo] the TARGET.
+    [nearest] is the nearest-neighbour search (cKDTree / numpy fallback); all that is assumed of it
+    is [nearest_spec]: it returns an index of an element at minimal distance (ties arbitrary).
+    [wf]: the boolean well-formedness predicate of Transfer.v (evaluated on every real geometry
+    by the correspondence run). *)
+From Coq Require Import Ascii String List Bool Arith ZArith QArith.
+From PTBase Require Import Exn PyStr.
+From P Require Import Lib Transfer Generators Wf MapProofs MapThms InconProofs GenProofs Witness.
+Import ListNotations.
+Close Scope Q_scope.
+
+(** the hypothesis on the search is satisfiable: the extracted instance (first arg-min) meets it *)
+Theorem nearest_exec_meets_spec : nearest_spec nearest_exec.
+Proof. exact nearest_exec_spec. Qed.
+Print Assumptions nearest_exec_meets_spec.
+
+(** ** totality *)
+(** the statement at full strength is FALSE for the faithful model (known finding
+    block_mapping:target-atm0-source-not-atm0): witness [src_of Atm1] -> [dst_of Atm0] *)
+Theorem block_mapping_total_refuted :
+  ~ (forall nearest self geo, nearest_spec nearest -> wf self -> wf geo ->
+       exists m cm, block_mapping nearest self geo = Ok (m, cm)).
+Proof. exact block_mapping_total_refuted_l. Qed.
+Print Assumptions block_mapping_total_refuted.
+
+(** all 3 x 3 atmosphere arrangements: exactly the two of the finding class raise (KeyError) *)
+Theorem block_mapping_atm_combinations : forall nearest, nearest_spec nearest -> forall self geo, wf self -> wf geo ->
+  match gatm geo, gatm self with
+  | Atm0, Atm1 | Atm0, Atm2 => block_mapping nearest self geo = Raise KeyError
+  | _, _ => exists m cm, block_mapping nearest self geo = Ok (m, cm)
+  end.
+Proof. exact block_mapping_atm_cases_l. Qed.
+Print Assumptions block_mapping_atm_combinations.
+
+(** outside the finding class: a mapping of exactly the target's blocks; every underground target
+    block gets an existing underground source block, every atmosphere target block an existing
+    atmosphere source block when the source has any *)
+Theorem block_mapping_total : forall nearest, nearest_spec nearest -> forall self geo, wf self -> wf geo ->
+  ~ atm_class self geo ->
+  exists m cm, block_mapping nearest self geo = Ok (m, cm) /\ map fst m = block_name_list geo /\
+    (forall b, In b (ug_blocks geo) -> exists sb, dget b m = Ok sb /\ In sb (ug_blocks self)) /\
+    (gatm self <> Atm2 -> forall b, In b (atm_blocks geo) -> exists sb, dget b m = Ok sb /\ In sb (atm_blocks self)).
+Proof. exact block_mapping_total_l. Qed.
+Print Assumptions block_mapping_total.
+Theorem block_mapping_total_hypotheses_satisfiable :
+  nearest_spec nearest_exec /\ wf (src_low Atm1) /\ wf (dst_of Atm1) /\
+  ~ atm_class (src_low Atm1) (dst_of Atm1) /\ ug_blocks (dst_of Atm1) <> [] /\ atm_blocks (dst_of Atm1) <> [].
+Proof. exact total_hyps_sat. Qed.
+Print Assumptions block_mapping_total_hypotheses_satisfiable.
+
+(** the corresponding atmosphere block: the source's single one, or the one over the nearest column *)
+Theorem block_mapping_atmosphere : forall nearest, nearest_spec nearest -> forall self geo m cm, wf self -> wf geo ->
+  block_mapping nearest self geo = Ok (m, cm) ->
+  (gatm self = Atm0 -> forall b, In b (atm_blocks geo) -> dget b m = Ok (block_name self (l0name self) (atmcol self))) /\
+  (gatm self = Atm1 -> forall col, In col (gcols geo) -> gatm geo = Atm1 ->
+     exists sc, In sc (gcols self) /\
+       (forall c', In c' (gcols self) -> (dist2 (ccentre col) (ccentre sc) <= dist2 (ccentre col) (ccentre c'))%Z) /\
+       dget (cname col) cm = Ok (cname sc) /\
+       dget (block_name geo (l0name geo) (cname col)) m = Ok (block_name self (l0name self) (cname sc))).
+Proof. exact block_mapping_atm_l. Qed.
+Print Assumptions block_mapping_atmosphere.
+
+(** ** nearest column, nearest layer, above-surface correction *)
+(** every underground target block (layer [lay], column [col]) is assigned the block of
+    - [sc]: a source column whose centre is at minimal distance from the centre of [col],
+    - [sl]: the FIRST source layer (below the atmosphere layer) whose centre is at minimal distance
+      from the centre of [lay],
+    - [L] = [sl] when that block is below the surface of [sc], else the first layer of [sc] below
+      ground;
+    and that block exists in the source *)
+Theorem block_mapping_nearest : forall nearest, nearest_spec nearest -> forall self geo m cm, wf self -> wf geo ->
+  block_mapping nearest self geo = Ok (m, cm) ->
+  forall lay col, In lay (tl (glayers geo)) -> In col (gcols geo) -> has_block lay col = true ->
+  exists sc sl L i,
+    In sc (gcols self) /\
+    (forall c', In c' (gcols self) -> (dist2 (ccentre col) (ccentre sc) <= dist2 (ccentre col) (ccentre c'))%Z) /\
+    dget (cname col) cm = Ok (cname sc) /\
+    nth_error (tl (glayers self)) i = Some sl /\
+    (forall l, In l (tl (glayers self)) -> (Z.abs (lcentre sl - lcentre lay) <= Z.abs (lcentre l - lcentre lay))%Z) /\
+    (forall j l, j < i -> nth_error (tl (glayers self)) j = Some l ->
+                 (Z.abs (lcentre sl - lcentre lay) < Z.abs (lcentre l - lcentre lay))%Z) /\
+    ((lbottom sl < csurface sc)%Z -> L = sl) /\
+    ((csurface sc <= lbottom sl)%Z -> first_below_ground self sc L) /\
+    In L (tl (glayers self)) /\ has_block L sc = true /\
+    dget (block_name geo (lname lay) (cname col)) m = Ok (block_name self (lname L) (cname sc)) /\
+    In (block_name self (lname L) (cname sc)) (ug_blocks self).
+Proof. exact block_mapping_nearest_l. Qed.
+Print Assumptions block_mapping_nearest.
+
+(** column_surface_layer (the layer used by the correction) is the first layer holding a block of the
+    column: every layer before it is above ground; it exists for every column *)
+Theorem above_surface_correction_exists : forall g c, wf g -> In c (gcols g) ->
+  exists sl, column_surface_layer g c = Ok sl /\ first_below_ground g c sl.
+Proof. exact surface_layer_first. Qed.
+Print Assumptions above_surface_correction_exists.
+Theorem above_surface_correction_example :
+  exists m cm, block_mapping nearest_exec (src_low Atm1) (dst_of Atm1) = Ok (m, cm) /\
+    dget (s2l "  c 1") m = Ok (s2l "  b 2") /\ dget (s2l "  c 2") m = Ok (s2l "  b 2") /\
+    dget (s2l "  c 0") m = Ok (s2l "  b 0").
+Proof. exact above_surface_example. Qed.
+Print Assumptions above_surface_correction_example.
+
+(** ** identity on equal grids *)
+Theorem block_mapping_self_id : forall nearest, nearest_spec nearest -> forall g, wf g ->
+  NoDup (map ccentre (gcols g)) -> NoDup (map lcentre (tl (glayers g))) ->
+  exists cm, block_mapping nearest g g = Ok (map (fun b => (b, b)) (block_name_list g), cm) /\
+             forall c, In c (gcols g) -> dget (cname c) cm = Ok (cname c).
+Proof. exact block_mapping_self_id_l. Qed.
+Print Assumptions block_mapping_self_id.
+Theorem block_mapping_self_id_hypotheses_satisfiable :
+  wf (src_low Atm0) /\ NoDup (map ccentre (gcols (src_low Atm0))) /\ NoDup (map lcentre (tl (glayers (src_low Atm0)))).
+Proof. exact self_hyps_sat. Qed.
+Print Assumptions block_mapping_self_id_hypotheses_satisfiable.
+
+(** block names of a well-formed geometry are pairwise distinct (the dict has one entry per block) *)
+Theorem block_names_distinct : forall g, wf g -> NoDup (block_name_list g).
+Proof. exact block_name_list_nodup. Qed.
+Print Assumptions block_names_distinct.
+
+(** ** t2incon.transfer_from *)
+(** whenever the transfer succeeds (default mappings or explicit ones): the new object holds exactly
+    the target's blocks in the target's order, every underground block has exactly the state of its
+    mapped source block, and the atmosphere blocks are copied / averaged / broadcast / defaulted
+    as [atm_spec] lists for the nine arrangements *)
+Theorem incon_transfer_spec : forall nearest, nearest_spec nearest -> forall maps sinc src geo new, wf src -> wf geo ->
+  incon_transfer nearest maps sinc src geo = Ok new ->
+  exists m cm,
+    match maps with Some mc => mc = (m, cm) | None => block_mapping nearest src geo = Ok (m, cm) end /\
+    map fst new = block_name_list geo /\
+    (forall b, In b (ug_blocks geo) -> exists sb st, dget b m = Ok sb /\ dget sb sinc = Ok st /\ dget b new = Ok st) /\
+    atm_spec sinc src geo cm new.
+Proof. exact (fun nearest _ => incon_transfer_spec_l nearest). Qed.
+Print Assumptions incon_transfer_spec.
+
+(** sourceinc[0] is the source's atmosphere block when the source object is in geometry order *)
+Theorem incon_first_is_atmosphere : forall sinc g, wf g -> gatm g = Atm0 -> map fst sinc = block_name_list g ->
+  forall st, inc_first sinc = Ok st -> dget (atmblk g) sinc = Ok st.
+Proof. exact incon_first_is_atm. Qed.
+Print Assumptions incon_first_is_atmosphere.
+
+(** with the default mappings the transfer succeeds outside the finding class whenever the source
+    object has a state for every source block, and raises KeyError inside the class *)
+Theorem incon_transfer_total : forall nearest, nearest_spec nearest -> forall sinc src geo, wf src -> wf geo ->
+  ~ atm_class src geo -> covers sinc src ->
+  exists new, incon_transfer nearest None sinc src geo = Ok new.
+Proof. exact incon_transfer_total_l. Qed.
+Print Assumptions incon_transfer_total.
+Theorem incon_transfer_keyerror : forall nearest, nearest_spec nearest -> forall sinc src geo, wf src -> wf geo ->
+  atm_class src geo -> incon_transfer nearest None sinc src geo = Raise KeyError.
+Proof. exact incon_transfer_raises. Qed.
+Print Assumptions incon_transfer_keyerror.
+Theorem incon_transfer_hypotheses_satisfiable :
+  map fst sinc1 = block_name_list (src_of Atm1) /\ covers sinc1 (src_of Atm1) /\
+  exists new, incon_transfer nearest_exec None sinc1 (src_of Atm1) (dst_of Atm1) = Ok new /\
+              map fst new = map s2l ["  c 0"; "  c 1"; "  c 2"]%string.
+Proof. exact incon_hyps_sat. Qed.
+Print Assumptions incon_transfer_hypotheses_satisfiable.
+Theorem incon_transfer_average_example :
+  exists new, incon_transfer nearest_exec (Some ([(s2l "  c 1", s2l "  b 1"); (s2l "  c 2", s2l "  b 2")], [(s2l "  c", s2l "  b")]))
+                sinc1 (src_of Atm1) (dst_of Atm0) = Ok new /\
+              dget (s2l "ATM 0") new = Ok (mkB [(4 # 1) / (2 # 1); (50 # 1) / (2 # 1)]%Q None None).
+Proof. exact incon_average_example. Qed.
+Print Assumptions incon_transfer_average_example.
+
+(** the source object is only read: in the model it is an input that the transition hands back
+    (true by construction of the functional model; the aliasing the Python code avoids with copy()
+    is checked on the implementation by the oracle, not here) *)
+Theorem incon_transfer_source_unchanged : forall nearest maps st src geo st',
+  incon_transfer_st nearest maps st src geo = Ok st' -> fst st' = fst st.
+Proof. exact incon_transfer_st_source. Qed.
+Print Assumptions incon_transfer_source_unchanged.
+
+(** ** t2data.transfer_generators_from onto an identical geometry *)
+(** with the mappings of the geometry onto itself, every generator that sits where the transfer puts
+    generators of its kind ([gen_home]) is reproduced (same name, block, type, table length, opaque
+    attributes; rates equal as rationals), in the same order, and the total generation is the same;
+    for rename x preserve_totals in all four combinations *)
+Theorem generator_transfer_identity : forall nearest g m cm tops bots incols vols rename preserve gens,
+  nearest_spec nearest -> wf g -> NoDup (map ccentre (gcols g)) -> NoDup (map lcentre (tl (glayers g))) ->
+  block_mapping nearest g g = Ok (m, cm) ->
+  map fst vols = block_name_list g ->
+  (forall c, In c (gcols g) -> In (cname c) incols) ->
+  Forall (gen_home g tops bots vols rename) gens ->
+  exists gens', transfer_generators g g tops bots incols vols vols m cm rename preserve gens = Ok gens' /\
+                Forall2 gen_eq gens' gens /\ (total_gx gens' == total_gx gens)%Q.
+Proof. exact generator_transfer_identity_bm. Qed.
+Print Assumptions generator_transfer_identity.
+Theorem generator_transfer_hypotheses_satisfiable :
+  Forall (gen_home (src_of Atm0) [s2l "tp"] [s2l "bt"] vols1 false) gens1 /\
+  map fst vols1 = block_name_list (src_of Atm0).
+Proof. exact gen_hyps_sat. Qed.
+Print Assumptions generator_transfer_hypotheses_satisfiable.
